@@ -136,6 +136,38 @@ func (c *Ctx) RawRead() []core.Ob {
 					}
 					continue
 				}
+				// io.ReadAtLeast(r, buf, min) with min below len(buf) is a read of "at least min, at most
+				// len(buf)": what it takes beyond min belongs to whatever follows in the stream, and how
+				// much that is depends on how the bytes arrive
+				if calleeName(call.Common()) == "io.ReadAtLeast" && len(call.Call.Args) == 3 {
+					kc++
+					ob := core.Ob{Rule: "R-RAWREAD", Key: fmt.Sprintf("%s#ReadAtLeast%d", core.FnName(fn), kc), Pos: c.P.Pos(call.Pos()),
+						Func: core.FnName(fn), Armed: !informationalPkg(fn), Status: core.OK,
+						Want: "io.ReadAtLeast asks for exactly the buffer (min = len(buf)): a smaller minimum reads ahead into the bytes of the next item"}
+					exact := false
+					if lc, isCall := stripConv(call.Call.Args[2]).(*ssa.Call); isCall {
+						if bi, isB := lc.Call.Value.(*ssa.Builtin); isB && bi.Name() == "len" && len(lc.Call.Args) == 1 && sameValue(lc.Call.Args[0], call.Call.Args[1]) {
+							exact = true
+						}
+					}
+					if k, isK := constIntVal(call.Call.Args[2]); isK {
+						if sl, isSl := call.Call.Args[1].(*ssa.Slice); isSl {
+							if arr, isArr := deref(sl.X.Type()).Underlying().(*types.Array); isArr && sl.Low == nil && sl.High == nil && arr.Len() == k {
+								exact = true
+							}
+							if hk, isHK := constIntVal(sl.High); isHK && sl.Low == nil && hk == k {
+								exact = true
+							}
+						}
+					}
+					if !exact {
+						ob.Status, ob.Got = core.Violated, "the minimum is not the buffer's length: the call may consume bytes of the following packet, and whether it does depends on the chunking of the stream"
+					} else {
+						ob.Got = "min = len(buf)"
+					}
+					obs = append(obs, ob)
+					continue
+				}
 				buf, ok := rawReadCall(call.Common())
 				if !ok {
 					continue
